@@ -1420,6 +1420,23 @@ class SubstitutionInverse(Rule):
 
         lower = full_normalize(lower, ctx)
         upper = full_normalize(upper, ctx)
+
+        # The new end points were obtained by solving x = f(u) for u. Check (numerically)
+        # that f maps them back to the original end points: this fails e.g. for
+        # x = sqrt(u) when the original interval contains negative numbers.
+        for old_bd, new_bd in ((e.lower, lower), (e.upper, upper)):
+            if old_bd.is_inf() or new_bd.is_inf():
+                continue
+            back = self.var_subst.subst(self.var_name, new_bd)
+            if not (back.is_evaluable() and old_bd.is_evaluable()):
+                continue
+            try:
+                diff = abs(expr.eval_expr(back) - expr.eval_expr(old_bd))
+            except (ValueError, ZeroDivisionError, TypeError, OverflowError):
+                continue
+            if diff > 1e-9:
+                raise AssertionError("SubstitutionInverse: %s does not map %s back to %s" % (self.var_subst, new_bd, old_bd))
+
         if lower.is_evaluable() and upper.is_evaluable() and expr.eval_expr(lower) > expr.eval_expr(upper):
             return -expr.Integral(self.var_name, upper, lower, new_e_body)
         else:
